@@ -13,7 +13,13 @@ L.append("%d fixed, %d open." % (nfix, nopen))
 S = ["| seeded change | property | needs | result |", "|---|---|---|---|"]
 for dn in sorted(glob.glob(V + "/seeded/*")):
     m = json.load(open(dn + "/meta.json"))
-    S.append("| %s | %s | %s | %s: %s |" % (os.path.basename(dn), m["property"], m["needs_to_manifest"][:200].replace("|", "/"),
+    if m["needs_to_manifest"].startswith("see notes.md"):
+        # wave 2 / 3: the first paragraphs of the seeder's notes say what the change is and what it needs
+        import re
+        n = open(dn + "/notes.md").read() if os.path.exists(dn + "/notes.md") else ""
+        paras = [re.sub(r"\s+", " ", x).strip() for x in re.split(r"\n\s*\n", n) if x.strip() and not x.strip().startswith("#")]
+        m["needs_to_manifest"] = (" ".join(paras[:2]) or m.get("change", ""))[:260].replace("`", "")
+    S.append("| %s | %s | %s | %s: %s |" % (os.path.basename(dn), m["property"], m["needs_to_manifest"][:260].replace("|", "/"),
                                         m["check_result"], str(m["caught_by"])[:300].replace("|", "/").replace("\n", " ")))
 per = {}
 for fn in glob.glob(V + "/mutants/C*-*.diff"):
